@@ -228,6 +228,29 @@ Definition for_arm (a : bool * Z * bool * Z) (repeat_code : list instr) : list i
   let '(r1, v1, r2, v2) := a in
   [IIf 1 (for_branch r1 v1 repeat_code) (for_branch r2 v2 repeat_code)].
 
+(* emit_and / emit_or: the code of the operands that remain, joined by the
+   early exits; an operand the IR builder dropped contributes nothing *)
+Definition and_exit : list instr := [IIf 0 [] [IConst (V32 0); IBr 1]].
+Definition or_exit : list instr := [IIf 0 [IConst (V32 1); IBr 1] []].
+Definition join_and (x y : option (list instr)) : option (list instr) :=
+  match x, y with
+  | None, o => o
+  | Some c, None => Some c
+  | Some c1, Some c2 => Some (c1 ++ and_exit ++ c2)
+  end.
+Definition join_or (x y : option (list instr)) : option (list instr) :=
+  match x, y with
+  | None, o => o
+  | Some c, None => Some c
+  | Some c1, Some c2 => Some (c1 ++ or_exit ++ c2)
+  end.
+(* all operands dropped cannot come out of the IR builder (it folds the node);
+   the code is then the constant the node stands for *)
+Definition code_and (c : option (list instr)) : list instr :=
+  match c with Some c => c | None => [IConst (V32 1)] end.
+Definition code_or (c : option (list instr)) : list instr :=
+  match c with Some c => c | None => [IConst (V32 0)] end.
+
 Section Emit.
   (* emit_expr.  g: identifiers in scope; sp: number of variable slots in use;
      h: the innermost handler for undefined values *)
@@ -254,14 +277,41 @@ Section Emit.
          IConst (V32 (Z.of_nat r mod 8)); IBin I32ShrU]
     | ENot a => emit_bool g sp h a ++ [IUn I32Eqz]
     | EAnd a b =>
+        (* emit_and over the operands of the n-ary node: the left-nested chain,
+           without the operands the IR builder dropped (known to be true) *)
         catch_undef 1
-          (fun h' => emit_bool g sp h' a ++ [IIf 0 [] [IConst (V32 0); IBr 1]] ++ emit_bool g sp h' b)
+          (fun h' =>
+             let fix chain (x : expr) {struct x} : option (list instr) :=
+               match x with
+               | EAnd x1 x2 =>
+                   join_and (chain x1)
+                     (match bconst x2 with Some true => None | _ => Some (emit_bool g sp h' x2) end)
+               | _ => match bconst x with Some true => None | _ => Some (emit_bool g sp h' x) end
+               end in
+             code_and (join_and (chain a)
+                         (match bconst b with Some true => None | _ => Some (emit_bool g sp h' b) end)))
           [IConst (V32 0)]
     | EOr a b =>
+        (* emit_or: every remaining operand under its own handler *)
+        let fix chain (x : expr) {struct x} : option (list instr) :=
+          match x with
+          | EOr x1 x2 =>
+              join_or (chain x1)
+                (match bconst x2 with
+                 | Some false => None
+                 | _ => Some (catch_undef 1 (fun h' => emit_bool g sp h' x2) [IConst (V32 0)])
+                 end)
+          | _ => match bconst x with
+                 | Some false => None
+                 | _ => Some (catch_undef 1 (fun h' => emit_bool g sp h' x) [IConst (V32 0)])
+                 end
+          end in
         [IBlock 1
-           (catch_undef 1 (fun h' => emit_bool g sp h' a) [IConst (V32 0)]
-            ++ [IIf 0 [IConst (V32 1); IBr 1] []]
-            ++ catch_undef 1 (fun h' => emit_bool g sp h' b) [IConst (V32 0)])]
+           (code_or (join_or (chain a)
+                       (match bconst b with
+                        | Some false => None
+                        | _ => Some (catch_undef 1 (fun h' => emit_bool g sp h' b) [IConst (V32 0)])
+                        end)))]
     | EDefined a =>
         catch_undef 1 (fun h' => emit_bool g sp h' a ++ [IDrop; IConst (V32 1)]) [IConst (V32 0)]
     | ENeg a => [IConst (V64 0)] ++ emit g sp h a ++ [IBin I64Sub]
@@ -358,6 +408,26 @@ Section Emit.
 
   Definition emit_bool (g : cenv) (sp : nat) (h : handler) (e : expr) : list instr :=
     emit g sp h e ++ match tyof g sp e with Some TInt => [IConst (V64 0); IBin I64Ne] | _ => [] end.
+
+  (* the chains of the [EAnd] / [EOr] cases of [emit], by name (EmitBase.v:
+     [emit_and_eq], [emit_or_eq]) *)
+  Definition and_opnd (g : cenv) (sp : nat) (h : handler) (y : expr) : option (list instr) :=
+    match bconst y with Some true => None | _ => Some (emit_bool g sp h y) end.
+  Fixpoint and_chain (g : cenv) (sp : nat) (h : handler) (x : expr) : option (list instr) :=
+    match x with
+    | EAnd x1 x2 => join_and (and_chain g sp h x1) (and_opnd g sp h x2)
+    | _ => and_opnd g sp h x
+    end.
+  Definition or_opnd (g : cenv) (sp : nat) (y : expr) : option (list instr) :=
+    match bconst y with
+    | Some false => None
+    | _ => Some (catch_undef 1 (fun h' => emit_bool g sp h' y) [IConst (V32 0)])
+    end.
+  Fixpoint or_chain (g : cenv) (sp : nat) (x : expr) : option (list instr) :=
+    match x with
+    | EOr x1 x2 => join_or (or_chain g sp x1) (or_opnd g sp x2)
+    | _ => or_opnd g sp x
+    end.
 
   (* emit_rule_condition: the whole condition under a handler that answers false *)
   Definition emit_condition (e : expr) : list instr :=
